@@ -26,6 +26,8 @@ var sharedProgs = []Prog{
 	{"error-payload-input", `e.value.k = a; e.value.list[0] = b; e.value.list = append(e.value.list, a); out := [e.value.k, e.value.list]`, false},
 	{"nested-input", `nest.m.k = a; nest.l[1][0] = b; nest.l[0] = a; nest.by[0] = 7; out := [nest.m.k, nest.l]`, false},
 	{"state-from-previous-run", `if is_undefined(keep) { keep = {n: 0, e: error({hits: [0]})} }; keep.n += a; keep.e.value.hits[0] += 1; keep.e.value.hits = append(keep.e.value.hits, b); out := [keep.n, keep.e.value.hits]`, false},
+	{"bytes-append-input", `out := buf + tag; o2 := nest.by + tag; o3 := [len(out), out[2]]`, false},
+	{"failing-module-after-main-frame", `m := import("m"); g := func(v) { return m.f(v) }; out := g(a > 0 ? "q" : 1) + g("r")`, false},
 	{"string-builtins", `s := "héllo"; out := [string(s), bytes(s), len(s), s + s, char(a)]`, false},
 }
 
@@ -40,6 +42,8 @@ func c08Compile(p Prog, a, b int64) *tengo.Compiled {
 	_ = s.Add("b", b)
 	_ = s.Add("arr", []interface{}{1, 2})
 	_ = s.Add("keep", nil)
+	_ = s.Add("buf", &tengo.Bytes{Value: make([]byte, 2, 8)}) // a host buffer with spare capacity
+	_ = s.Add("tag", []byte("AA"))
 	_ = s.Add("e", &tengo.Error{Value: &tengo.Map{Value: map[string]tengo.Object{"k": &tengo.Int{Value: -1},
 		"list": &tengo.Array{Value: []tengo.Object{&tengo.Int{Value: 1}, &tengo.Int{Value: 2}}}}}})
 	_ = s.Add("nest", &tengo.Map{Value: map[string]tengo.Object{
@@ -75,6 +79,8 @@ func C08_Clones() {
 	ca, cb, alone := c.Clone(), c.Clone(), c.Clone()
 	_ = cb.Set("a", a2)
 	_ = alone.Set("a", a2)
+	_ = cb.Set("tag", []byte("BB"))
+	_ = alone.Set("tag", []byte("BB"))
 	var eB error
 	var pB bool
 	vf.Concurrent(func() {
@@ -87,16 +93,38 @@ func C08_Clones() {
 	// lazily initialised shared state)
 	eAlone, pAlone := runQuiet(alone)
 	n := vf.Races()
-	vf.Assert(n == 0, "two clone executions touch the same memory without synchronisation: "+p.Name+": "+vf.RaceText(0))
 	vf.Assert((eB == nil) == (eAlone == nil) && pB == pAlone, "a clone fails exactly when it fails run alone: "+p.Name)
 	if eB != nil {
 		vf.Assert(errText(eB) == errText(eAlone), "a clone reports the same error as when run alone: "+p.Name)
 	}
 	vf.Assert(sameGlobals(alone, cb), "a clone produces the results it produces when run alone: "+p.Name)
+	// second reference: a clone of an independently compiled copy of the script
+	// (nothing is shared with the executions above), same inputs
+	{
+		ind := fresh.Clone()
+		_ = ind.Set("a", a2)
+		_ = ind.Set("tag", []byte("BB"))
+		eInd, pInd := runQuiet(ind)
+		vf.Assert((eB == nil) == (eInd == nil) && pB == pInd, "a clone fails exactly when an independent copy fails: "+p.Name)
+		if eB != nil {
+			vf.Assert(errText(eB) == errText(eInd), "a clone reports the same error and positions as an independent copy run alone: "+p.Name+": `"+errText(eB)+"` vs `"+errText(eInd)+"`")
+		}
+		vf.Assert(sameGlobals(ind, cb), "a clone produces the results an independent copy produces: "+p.Name)
+	}
+	// ... and the first clone still holds the results of its own run
+	if p.Name != "mutable-input" {
+		indA := fresh.Clone()
+		_, _ = runQuiet(indA)
+		_ = indA.Set("b", 99)
+		vf.Assert(sameGlobals(indA, ca), "the results of one clone are not changed by running another: "+p.Name)
+	}
 	// the original is untouched by both
 	vf.Assert(c.Get("a").Int64() == a && c.Get("b").Int64() == b, "running or setting a clone does not affect the original: "+p.Name)
 	vf.Assert(sameGlobals(fresh, c), "no value reachable from the original's globals is changed by running its clones: "+p.Name)
 	vf.Assert(cb.Get("b").Int64() == b || p.Name == "mutable-input", "setting a variable of one clone does not affect another clone: "+p.Name)
+	// (asserted last: the two recorded races F7a/F7b end the path here and must
+	// not hide a functional interference in the same program)
+	vf.Assert(n == 0, "two clone executions touch the same memory without synchronisation: "+p.Name+": "+vf.RaceText(0))
 	vf.Reach("clones")
 }
 
